@@ -78,6 +78,19 @@ def _one(args):
             'raw': out[-400:] if verdict != 'confirmed' else ''}
 
 
+def _xval(args):
+    """concrete cross-validation of a `Confirmed over all paths` verdict on plain CPython, when the residual argument space is small:
+    CrossHair's verdict is only as good as its models of the builtins (observed: its insertion-ordered `set` hid a dependence on hash order)"""
+    modname, name = args
+    env = dict(os.environ, PYTHONPATH=ROOT, VERIF_REPO=REPO, PYTHONHASHSEED='0')
+    try:
+        p = subprocess.run([PY, '-m', 'checks.ch_xval', modname, name], capture_output=True, text=True, timeout=600, env=env, cwd=ROOT)
+        line = (p.stdout.strip().splitlines() or ['{}'])[-1]
+        return name, json.loads(line)
+    except Exception as e:      # noqa
+        return name, {'skipped': f'error {e}'}
+
+
 def run(prop, tier, timeout=None, workers=16):
     base = importlib.import_module(f"harness.ch_{prop.lower()}")
     shards = base.shards(tier)
@@ -89,6 +102,18 @@ def run(prop, tier, timeout=None, workers=16):
     t0 = time.time()
     with ThreadPoolExecutor(max_workers=workers) as tp:
         res = list(tp.map(_one, [(modname, n, fn, fixed, timeout) for n, fn, fixed in names]))
+    # cross-validate confirmed shards concretely where the residual space is small
+    xval = {}
+    conf = [r for r in res if r['verdict'] == 'confirmed' and r['function'] != witness]
+    with ThreadPoolExecutor(max_workers=workers) as tp:
+        for name, out in tp.map(_xval, [(modname, r['shard']) for r in conf]):
+            xval[name] = out
+    for r in res:
+        out = xval.get(r['shard'])
+        if out and out.get('false_at'):
+            r['verdict'] = 'counterexample'
+            r['cex'] = ("condition false on plain CPython although CrossHair reported `Confirmed` (model discrepancy)",
+                        ', '.join(str(v) for v in out['false_at'][0]))
     findings = []
     witness_ok = None
     if witness:
@@ -132,7 +157,9 @@ def run(prop, tier, timeout=None, workers=16):
         'engine': 'crosshair 0.0.110', 'module': f"harness/ch_{prop.lower()}.py", 'conditions': len(res),
         'confirmed_over_all_paths': confirmed, 'counterexamples': len(findings), 'inconclusive': len(incon),
         'inconclusive_shards': [(r['shard'], r['fixed'], r['raw'][-120:]) for r in incon[:10]],
-        'per_condition_timeout_s': timeout, 'reachability_witness_refuted': witness_ok, 'wall_s': round(time.time() - t0, 1),
+        'per_condition_timeout_s': timeout, 'reachability_witness_refuted': witness_ok,
+        'confirmed_shards_cross_validated_concretely': sum(1 for v in xval.values() if 'evaluated' in v),
+        'concrete_cross_validation_points': sum(v.get('evaluated', 0) for v in xval.values()), 'wall_s': round(time.time() - t0, 1),
         'evaluations': len(res), 'distinct_nontrivial': confirmed + len(findings),
         'queries': 0, 'solver_s': round(sum(r['wall_s'] for r in res), 1),
         'findings': findings,
